@@ -24,6 +24,7 @@ REQUIRED = [
     "Sqfs.C01.file_content_roundtrip",
     "Sqfs.C01.refuse_unrepresentable", "Sqfs.C01.representable_accepted",
     "Sqfs.C01.parse_serialize_partial", "Sqfs.C01.parse_serialize",
+    "Sqfs.C01.post_process_order_partial", "Sqfs.C01.exampleTree_allSorted",
     "Sqfs.C01.exPackCodec_ok",          # witness lemma: Pack.Codec.Ok for a codec that compresses (audit C)
 ]
 
